@@ -31,7 +31,7 @@ Print Assumptions C08_wellformed.
 Theorem C08_progress : forall c evs m a c' r,
   next c evs = Yield m a c' r -> (c_ru c <= c_tot c <= length (c_buf c))%nat ->
   ((r = evs /\ c_tot c' = c_tot c /\ (c_ru c < c_ru c' <= c_tot c')%nat) \/
-   (S (ev_weight (length (c_buf c)) r) <= ev_weight (length (c_buf c)) evs /\
+   (c_tot c' + S (ev_weight (length (c_buf c)) r) <= ev_weight (length (c_buf c)) evs /\
     (1 <= c_ru c' <= c_tot c')%nat /\ (c_tot c' <= length (c_buf c'))%nat /\
     length (c_buf c') = length (c_buf c)))%nat.
 Proof. exact next_progress. Qed.
